@@ -131,8 +131,7 @@ Definition locate_hunk (content : list line) (h : hunk) (ws : bool) (offset : Z)
   : option location :=
   let guess := sadd (ssub (expected_line_number h) 1) offset in
   if Z.eqb (rcount (oldr h)) 0 then
-    if Z.eqb (rstart (oldr h)) 0 && negb (is_nil content) then None
-    else if Z.ltb guess (Z.of_nat lo) || Z.ltb (Z.of_nat (length content)) guess then None
+    if Z.ltb guess (Z.of_nat lo) || Z.ltb (Z.of_nat (length content)) guess then None
     else Some (mkLoc (Z.to_nat guess) 0 0)
   else
     let pc := prefix_ctx (body h) in
